@@ -7,6 +7,9 @@ import shutil
 from . import encode, genpel, project, seams
 
 REFS = ['BD8D1001', 'BD8D1002', 'BC8A1001', '11001001', 'BD701001', 'B1811001']
+# reference codes that use more of the 32 characters (blanks inside, text behind the eight digits)
+REFS_LONG = ['BD8D1003 LP=0002', 'B7001111 LP=0002', 'BD8D1004        X', 'BC8A1002 A B', '11001002/P1-C5', 'BD8D', 'B181',
+             'BD701002 0000000000000000000000Z']
 
 
 def mk_pel(rng, eid, plid=None, bmc=None, ref=None, sev=0x40, flags=0x2000, creator='O', extra_secs=True, lead=False):
@@ -19,6 +22,8 @@ def mk_pel(rng, eid, plid=None, bmc=None, ref=None, sev=0x40, flags=0x2000, crea
     if extra_secs:
         secs += [genpel.gen_eh(rng), genpel.gen_ud(rng, creator=creator)][: rng.randrange(0, 3)]
     r = rng.random()
+    if extra_secs and rng.random() < .15 and creator == 'O':
+        secs.insert(rng.randrange(1, len(secs) + 1), failing_plugin_ud(rng))    # decodes, with an error note
     if lead and r < .35:
         # something in front of the Primary SRC, with a length that is not a multiple of 4
         secs = [genpel.gen_other(rng, rng.choice(['MI', 'XX', 'EI'])), genpel.gen_ud(rng, creator=creator)][: rng.randrange(1, 3)] + secs
@@ -30,14 +35,34 @@ def attrs(pel, name, data):
     """abstract attributes of a PEL file for the judge"""
     return dict(name=project.cp(name), kind='pel', sev=pel['uh']['sev'], flags=encode.b2i(pel['uh']['flags']),
                 eid=pel['ph']['eid'], plid=pel['ph']['plid'], bmc=pel['ph']['bmc'],
-                ref=[c for c in [x for x in pel['secs'] if x['kind'] == 'SRC'][0]['ascii'][:8]], size=len(data))
+                ref=_strip([x for x in pel['secs'] if x['kind'] == 'SRC'][0]['ascii']), size=len(data))
+
+
+def _strip(cps):
+    """the reference code as shown: the 32 characters without the blanks around them"""
+    cps = list(cps)
+    while cps and cps[-1] == 0x20:
+        cps.pop()
+    while cps and cps[0] == 0x20:
+        cps.pop(0)
+    return cps
 
 
 def junk_attrs(name, kind):
     return dict(name=project.cp(name), kind=kind, sev=0, flags=0, eid=[], plid=[], bmc=[], ref=[], size=0)
 
 
-JUNK_KINDS = ['empty', 'badPHid', 'badUHid', 'truncInHeaders', 'truncAfterHeaders', 'truncAfterSRC',
+def failing_plugin_ud(rng):
+    """a user-data section routed to the shipped hardware-diagnostics parser with content it cannot digest
+    (the parser raises; the decoder contains that and shows the section as a dump with an error note)"""
+    s = genpel.hdr(rng, 'UD')
+    s.update(kind='UD', comp=[0xE5, 0x00], sub=rng.choice([1, 1, 2, 3, 4, 5]), ver=1,
+             payload=rng.choice([[0, 0, 0, 9] + genpel.rbytes(rng, 12), genpel.rbytes(rng, 4 * rng.randrange(1, 6)),
+                                 [0x7B, 0x22, 0x78, 0x00]]))
+    return s
+
+
+JUNK_KINDS = ['pluginFailsThenCut', 'pluginFailsThenCut', 'empty', 'badPHid', 'badUHid', 'truncInHeaders', 'truncAfterHeaders', 'truncAfterSRC',
               'corruptLater', 'random', 'pceSize', 'badUtf8Creator', 'badUtf8Src', 'hugeWordCount', 'noPrimarySrc', 'countTwo', 'byteflip', 'byteflip', 'byteflip']
 
 
@@ -80,6 +105,16 @@ def make_junk(rng, kind, base_pel):
         data[27] = 2                        # the section count says there is nothing after the headers
     elif kind == 'pceSize':
         pass
+    elif kind == 'pluginFailsThenCut':
+        # sections whose parser module raises (in front of the SRC and behind it), then the file ends early
+        import copy
+        pel = copy.deepcopy(base_pel)
+        front = [failing_plugin_ud(rng) for _ in range(rng.randrange(0, 2))]
+        pel['secs'] = front + pel['secs'][:1] + [failing_plugin_ud(rng)] + pel['secs'][1:]
+        if not front and rng.random() < .5:
+            pel['secs'] = pel['secs'][1:]        # no Primary SRC at all: the summaries walk every section
+        data = bytearray(encode.encode(pel))
+        data = data[: len(data) - rng.randrange(1, 8)]
     return bytes(data)
 
 
